@@ -40,6 +40,9 @@ class ProcRec(desper.Processor):
 
     def process(self, dt=1):
         self._log.append(('process', self, dt))
+        hook = self.__dict__.pop('_script', None)
+        if hook is not None:
+            hook()
 
     def on_add(self, *a):
         self._log.append(('on_add', self, a))
@@ -68,7 +71,9 @@ def decode_class(p):
 def decode_op(t):
     sel, p = t
     d = [(p >> (4 * i)) & 15 for i in range(4)]
-    kind = ('add', 'add', 'add', 'add', 'remove', 'process', 'process', 'readd')[sel % 8]
+    kind = ('add', 'add', 'add', 'add', 'remove', 'process', 'process', 'readd', 'arm', 'process')[sel % 10]
+    if kind == 'arm':
+        return ['arm', d[0], d[1] % 2, d[2] % 6, PRIOS[d[3] % len(PRIOS)]]
     if kind == 'add':
         return ['add', d[0] % 6, PRIOS[d[1] % len(PRIOS)]]
     if kind == 'readd':
@@ -80,7 +85,7 @@ def decode_op(t):
 
 def strategy():
     cls = st.integers(0, 5 * len(DEFAULTS) * 4 * 36 - 1).map(decode_class)
-    op = st.tuples(st.integers(0, 7), st.integers(0, 16 ** 4 - 1)).map(decode_op)
+    op = st.tuples(st.integers(0, 9), st.integers(0, 16 ** 4 - 1)).map(decode_op)
     return st.fixed_dictionaries({'classes': st.lists(cls, min_size=3, max_size=6),
                                   'ops': worldops.chunked(op, 40)})
 
@@ -156,6 +161,8 @@ def run_case(case):
             if not ok:
                 viol('get_processor_differs', type=T.__name__, got=repr(g))
 
+    frame = {'open': False, 'removed': set(), 'added': set()}
+
     def do_add(p, prio):
         mark = len(log)
         want_prio = expect_priority(p, prio)
@@ -176,12 +183,16 @@ def run_case(case):
             model.remove(o)
             removed_pool.append(o)
             flags['replacement'] += 1
+            if frame['open']:
+                frame['removed'].add(id(o))
             if maps(o, 'on_remove'):
                 owed.append(('on_remove', id(o)))
         model_insert(p)
+        if frame['open']:
+            frame['added'].add(id(p))
         if maps(p, 'on_add'):
             owed.append(('on_add', id(p)))
-        check_callbacks(log[mark:], owed)
+        check_callbacks([r for r in log[mark:] if r[0] != 'process'], owed)
 
     def check_callbacks(seg, owed):
         got = sorted((k, id(r)) for (k, r, a) in seg)
@@ -190,6 +201,28 @@ def run_case(case):
         for (k, r, a) in seg:
             if k in ('on_add', 'on_remove') and a != ():
                 viol('processor_callback_arguments', kind=k, args=repr(a))
+
+    def do_remove(T):
+        mark = len(log)
+        exact = [m for m in model if type(m) is T]
+        matches = [m for m in model if isinstance(m, T)]
+        try:
+            r = world.remove_processor(T)
+        except Exception as exc:
+            viol('remove_processor_raised', exception=repr(exc))
+        ok = (r is exact[0]) if exact else (any(r is m for m in matches) if matches else r is None)
+        if not ok:
+            viol('remove_processor_returns_exact_or_a_match', type=T.__name__, got=repr(r))
+        owed = []
+        if r is not None:
+            model.remove(r)
+            removed_pool.append(r)
+            flags['remove'] += 1
+            if frame['open']:
+                frame['removed'].add(id(r))
+            if maps(r, 'on_remove'):
+                owed.append(('on_remove', id(r)))
+        check_callbacks([x for x in log[mark:] if x[0] != 'process'], owed)
 
     dts = [0, 1, 0.125, Fraction(1, 3)]
     check_state()
@@ -205,37 +238,55 @@ def run_case(case):
                 flags['readd_removed_instance'] += 1
                 do_add(p, op[2])
         elif op[0] == 'remove':
-            T = classes[op[1] % n]
-            mark = len(log)
-            exact = [m for m in model if type(m) is T]
-            matches = [m for m in model if isinstance(m, T)]
-            try:
-                r = world.remove_processor(T)
-            except Exception as exc:
-                viol('remove_processor_raised', exception=repr(exc))
-            ok = (r is exact[0]) if exact else (any(r is m for m in matches) if matches else r is None)
-            if not ok:
-                viol('remove_processor_returns_exact_or_a_match', type=T.__name__, got=repr(r))
-            owed = []
-            if r is not None:
-                model.remove(r)
-                removed_pool.append(r)
-                flags['remove'] += 1
-                if maps(r, 'on_remove'):
-                    owed.append(('on_remove', id(r)))
-            check_callbacks(log[mark:], owed)
+            do_remove(classes[op[1] % n])
+        elif op[0] == 'arm':
+            # one-shot script: the next time this processor is processed it adds or removes a processor
+            if model:
+                target = model[op[1] % len(model)]
+                if op[2] == 0:
+                    target.__dict__['_script'] = (lambda c=op[3], pr=op[4]: (flags.__setitem__(
+                        'add_from_inside_process', flags['add_from_inside_process'] + 1), do_add(new(c), pr)))
+                else:
+                    target.__dict__['_script'] = (lambda c=op[3]: (flags.__setitem__(
+                        'remove_from_inside_process', flags['remove_from_inside_process'] + 1),
+                        do_remove(classes[c % n])))
         else:
             base = dts[op[1] % len(dts)]
             dt = base if op[1] % 2 else type('DT', (), {'v': base})()     # arbitrary objects are legal dt values
             mark = len(log)
+            start = list(model)
+            frame.update(open=True, removed=set(), added=set())
             try:
                 world.process(dt)
+            except PropertyViolation:
+                raise
             except Exception as exc:
                 viol('process_raised', exception=repr(exc))
-            seg = log[mark:]
-            if [(k, id(r)) for (k, r, a) in seg] != [('process', id(m)) for m in model]:
-                viol('process_calls_each_processor_once_in_order', got=[(k, repr(r)) for (k, r, a) in seg],
-                     expected=[repr(m) for m in model])
+            finally:
+                frame['open'] = False
+            seg = [r for r in log[mark:] if r[0] == 'process']
+            if not frame['removed'] and not frame['added']:
+                if [(k, id(r)) for (k, r, a) in seg] != [('process', id(m)) for m in start]:
+                    viol('process_calls_each_processor_once_in_order', got=[(k, repr(r)) for (k, r, a) in seg],
+                         expected=[repr(m) for m in start])
+            else:
+                # processors were added / removed from inside the frame: those registered at its start and not
+                # removed during it run exactly once, in their order; removed or added ones at most once
+                flags['frame_with_reentrant_processor_ops'] += 1
+                counts = collections.Counter(id(r) for (k, r, a) in seg)
+                for m in start:
+                    c = counts.get(id(m), 0)
+                    if (id(m) in frame['removed'] and c > 1) or (id(m) not in frame['removed'] and c != 1):
+                        viol('registered_processor_called_exactly_once_although_the_list_changed_mid_frame',
+                             processor=repr(m), calls=c, removed_during_frame=id(m) in frame['removed'],
+                             got=[repr(r) for (k, r, a) in seg])
+                start_ids = [id(m) for m in start]
+                for pid_, c in counts.items():
+                    if pid_ not in start_ids and not (pid_ in frame['added'] and c == 1):
+                        viol('process_called_a_processor_that_is_not_registered', calls=c)
+                sub = [id(r) for (k, r, a) in seg if id(r) in start_ids]
+                if sub != [x for x in start_ids if x in sub]:
+                    viol('process_order_of_registered_processors', got=[repr(r) for (k, r, a) in seg])
             if any(a is not dt for (k, r, a) in seg):
                 viol('process_passes_the_same_dt', dt=repr(dt))
             flags['process'] += 1
